@@ -1154,12 +1154,28 @@ func eq(lhs, rhs reflect.Value) bool {
 		return jtypes.DeepEqual(lhs, rhs)
 	}
 
+	// Nulls are equal to each other, whether they come from
+	// a null literal or from the input data.
+	if isNull(lhs) && isNull(rhs) {
+		return true
+	}
+
 	// All other types (e.g. functions) are
 	// compared directly. Two functions with the same contents
 	// are not considered equal unless they're the same
 	// physical object in memory.
 
 	return lhs == rhs
+}
+
+func isNull(v reflect.Value) bool {
+	v = jtypes.Resolve(v)
+	switch v.Kind() {
+	case reflect.Interface, reflect.Ptr:
+		return v.IsNil()
+	default:
+		return false
+	}
 }
 
 func lt(lhs, rhs reflect.Value) bool {
